@@ -22,6 +22,10 @@ CONSTANTS
   DevIdleSweep = FALSE
   DevFwdNoEof = FALSE
   SrcKinds = @@SK@@
+  ErrClasses = @@EC@@
+  PollOn = @@POLL@@
+  RetryOn = {}
+  RetryWriteOn = {}
   DevBufio = FALSE
   AttachKinds = @@AK@@
   HoldOn = @@HOLD@@
